@@ -7,4 +7,4 @@ def register(pid):
         return fn
     return deco
 
-from . import c16, c15, c18, c13, c06, c03, c09, c11, c17, c14, c01, c04  # noqa
+from . import c16, c15, c18, c13, c06, c03, c09, c11, c17, c14, c01, c04, c12  # noqa
